@@ -9,6 +9,7 @@
 
 use {
     crate::{
+        cx::EXACT,
         c02_queries,
         c11_ops,
         c12_predicates,
@@ -21,82 +22,322 @@ use {
     },
 };
 
-// AdjacencyList::degree_sequence (and the other inherent queries), order 3, p in 1..=8.
-// @verif prop=C17 tier=quick fl=f2 role=degree-sequence/p8 t=1800 mem=16
+// AdjacencyList::complement on every digraph of order 3 with exactly 1 available CPU(s) equals the single-threaded definition.
+// @verif prop=C17 tier=quick fl=f2 role=complement/t1 t=1800 mem=16
 #[cfg_attr(kani, kani::proof)]
-#[cfg_attr(kani, kani::unwind(10))]
-pub fn c17_degree_sequence_n3_p8() {
-    c02_queries::inherent::<AdjacencyList, 3>(8);
+#[cfg_attr(kani, kani::unwind(8))]
+pub fn c17_complement_n3_t1() {
+    c11_ops::complement::<AdjacencyList, 3>(EXACT + 1);
 }
 
-// AdjacencyList::complement, order 3, p in 1..=8 (rows below, equal to and above the thread count).
-// @verif prop=C17 tier=quick fl=f2 role=complement/p8 t=1800 mem=16
+// AdjacencyList::complement on every digraph of order 3 with exactly 2 available CPU(s) equals the single-threaded definition.
+// @verif prop=C17 tier=quick fl=f2 role=complement/t2 t=1800 mem=16
 #[cfg_attr(kani, kani::proof)]
-#[cfg_attr(kani, kani::unwind(10))]
-pub fn c17_complement_n3_p8() {
-    c11_ops::complement::<AdjacencyList, 3>(8);
+#[cfg_attr(kani, kani::unwind(8))]
+pub fn c17_complement_n3_t2() {
+    c11_ops::complement::<AdjacencyList, 3>(EXACT + 2);
 }
 
-// AdjacencyList::union, orders 2 and 3, p in 1..=8.
-// @verif prop=C17 tier=quick fl=f2 role=union-list/p8 t=1800 mem=16
+// AdjacencyList::complement on every digraph of order 3 with exactly 4 available CPU(s) equals the single-threaded definition.
+// @verif prop=C17 tier=quick fl=f2 role=complement/t4 t=1800 mem=16
 #[cfg_attr(kani, kani::proof)]
-#[cfg_attr(kani, kani::unwind(10))]
-pub fn c17_union_list_n2_m3_p8() {
-    c11_ops::union::<AdjacencyList, 2, 3, 3>(8);
+#[cfg_attr(kani, kani::unwind(8))]
+pub fn c17_complement_n3_t4() {
+    c11_ops::complement::<AdjacencyList, 3>(EXACT + 4);
 }
 
-// AdjacencyMap::union (merge-path partition), orders 2 and 2, p in 1..=8.
-// @verif prop=C17 tier=quick fl=f2 role=union-map/p8 t=2400 mem=20
+// AdjacencyList::complement on every digraph of order 3 with exactly 3 available CPU(s) equals the single-threaded definition.
+// @verif prop=C17 tier=thorough fl=f2 role=complement/t3 t=1800 mem=16
 #[cfg_attr(kani, kani::proof)]
-#[cfg_attr(kani, kani::unwind(10))]
-pub fn c17_union_map_n2_m2_p8() {
-    c11_ops::union::<AdjacencyMap, 2, 2, 2>(8);
+#[cfg_attr(kani, kani::unwind(8))]
+pub fn c17_complement_n3_t3() {
+    c11_ops::complement::<AdjacencyList, 3>(EXACT + 3);
 }
 
-// AdjacencyList::is_semicomplete (and the other predicates), order 3, p in 1..=8.
-// @verif prop=C17 tier=quick fl=f2 role=is-semicomplete/p8 t=1800 mem=16
+// AdjacencyList::complement on every digraph of order 3 with exactly 8 available CPU(s) equals the single-threaded definition.
+// @verif prop=C17 tier=thorough fl=f2 role=complement/t8 t=1800 mem=16
 #[cfg_attr(kani, kani::proof)]
 #[cfg_attr(kani, kani::unwind(10))]
-pub fn c17_is_semicomplete_n3_p8() {
-    c12_predicates::inherent::<AdjacencyList, 3>(8);
+pub fn c17_complement_n3_t8() {
+    c11_ops::complement::<AdjacencyList, 3>(EXACT + 8);
 }
 
-// AdjacencyList::complete(6), p in 1..=8: chunk sizes 6, 3, 2, 2, 2, 1, 1, 1.
-// @verif prop=C17 tier=quick fl=f2 role=complete/p8 t=1800 mem=16
+// AdjacencyList::degree_sequence (and the other queries) on every digraph of order 3 with exactly 2 CPU(s).
+// @verif prop=C17 tier=quick fl=f2 role=degree-sequence/t2 t=1800 mem=16
+#[cfg_attr(kani, kani::proof)]
+#[cfg_attr(kani, kani::unwind(8))]
+pub fn c17_degree_sequence_n3_t2() {
+    c02_queries::inherent::<AdjacencyList, 3>(EXACT + 2);
+}
+
+// AdjacencyList::degree_sequence (and the other queries) on every digraph of order 3 with exactly 4 CPU(s).
+// @verif prop=C17 tier=quick fl=f2 role=degree-sequence/t4 t=1800 mem=16
+#[cfg_attr(kani, kani::proof)]
+#[cfg_attr(kani, kani::unwind(8))]
+pub fn c17_degree_sequence_n3_t4() {
+    c02_queries::inherent::<AdjacencyList, 3>(EXACT + 4);
+}
+
+// AdjacencyList::degree_sequence (and the other queries) on every digraph of order 3 with exactly 1 CPU(s).
+// @verif prop=C17 tier=thorough fl=f2 role=degree-sequence/t1 t=1800 mem=16
+#[cfg_attr(kani, kani::proof)]
+#[cfg_attr(kani, kani::unwind(8))]
+pub fn c17_degree_sequence_n3_t1() {
+    c02_queries::inherent::<AdjacencyList, 3>(EXACT + 1);
+}
+
+// AdjacencyList::degree_sequence (and the other queries) on every digraph of order 3 with exactly 3 CPU(s).
+// @verif prop=C17 tier=thorough fl=f2 role=degree-sequence/t3 t=1800 mem=16
+#[cfg_attr(kani, kani::proof)]
+#[cfg_attr(kani, kani::unwind(8))]
+pub fn c17_degree_sequence_n3_t3() {
+    c02_queries::inherent::<AdjacencyList, 3>(EXACT + 3);
+}
+
+// AdjacencyList::degree_sequence (and the other queries) on every digraph of order 3 with exactly 8 CPU(s).
+// @verif prop=C17 tier=thorough fl=f2 role=degree-sequence/t8 t=1800 mem=16
 #[cfg_attr(kani, kani::proof)]
 #[cfg_attr(kani, kani::unwind(10))]
-pub fn c17_complete_n6_p8() {
-    c14_generators::complete_threads(6, 8);
+pub fn c17_degree_sequence_n3_t8() {
+    c02_queries::inherent::<AdjacencyList, 3>(EXACT + 8);
 }
 
-// AdjacencyMap::random_tournament stays a tournament for every p in 1..=8 and every seed.
-// @verif prop=C17 tier=quick fl=f2 role=map-tournament/p8 t=2400 mem=20
+// AdjacencyList::is_semicomplete (and the other predicates) on every digraph of order 3 with exactly 2 CPU(s).
+// @verif prop=C17 tier=quick fl=f2 role=is-semicomplete/t2 t=1800 mem=16
+#[cfg_attr(kani, kani::proof)]
+#[cfg_attr(kani, kani::unwind(8))]
+pub fn c17_is_semicomplete_n3_t2() {
+    c12_predicates::inherent::<AdjacencyList, 3>(EXACT + 2);
+}
+
+// AdjacencyList::is_semicomplete (and the other predicates) on every digraph of order 3 with exactly 4 CPU(s).
+// @verif prop=C17 tier=quick fl=f2 role=is-semicomplete/t4 t=1800 mem=16
+#[cfg_attr(kani, kani::proof)]
+#[cfg_attr(kani, kani::unwind(8))]
+pub fn c17_is_semicomplete_n3_t4() {
+    c12_predicates::inherent::<AdjacencyList, 3>(EXACT + 4);
+}
+
+// AdjacencyList::is_semicomplete (and the other predicates) on every digraph of order 3 with exactly 1 CPU(s).
+// @verif prop=C17 tier=thorough fl=f2 role=is-semicomplete/t1 t=1800 mem=16
+#[cfg_attr(kani, kani::proof)]
+#[cfg_attr(kani, kani::unwind(8))]
+pub fn c17_is_semicomplete_n3_t1() {
+    c12_predicates::inherent::<AdjacencyList, 3>(EXACT + 1);
+}
+
+// AdjacencyList::is_semicomplete (and the other predicates) on every digraph of order 3 with exactly 3 CPU(s).
+// @verif prop=C17 tier=thorough fl=f2 role=is-semicomplete/t3 t=1800 mem=16
+#[cfg_attr(kani, kani::proof)]
+#[cfg_attr(kani, kani::unwind(8))]
+pub fn c17_is_semicomplete_n3_t3() {
+    c12_predicates::inherent::<AdjacencyList, 3>(EXACT + 3);
+}
+
+// AdjacencyList::is_semicomplete (and the other predicates) on every digraph of order 3 with exactly 8 CPU(s).
+// @verif prop=C17 tier=thorough fl=f2 role=is-semicomplete/t8 t=1800 mem=16
 #[cfg_attr(kani, kani::proof)]
 #[cfg_attr(kani, kani::unwind(10))]
-pub fn c17_map_tournament_n3_p8() {
-    c15_random::tournament::<AdjacencyMap, 3>(8);
+pub fn c17_is_semicomplete_n3_t8() {
+    c12_predicates::inherent::<AdjacencyList, 3>(EXACT + 8);
 }
 
-// AdjacencyMap::erdos_renyi stays a simple digraph for every p in 1..=8.
-// @verif prop=C17 tier=thorough fl=f2 role=map-erdos-renyi/p8 t=3600 mem=24
+// AdjacencyList::union of every order-2 with every order-3 digraph with exactly 2 CPU(s).
+// @verif prop=C17 tier=quick fl=f2 role=union-list/t2 t=1800 mem=16
+#[cfg_attr(kani, kani::proof)]
+#[cfg_attr(kani, kani::unwind(8))]
+pub fn c17_union_list_n2_m3_t2() {
+    c11_ops::union::<AdjacencyList, 2, 3, 3>(EXACT + 2);
+}
+
+// AdjacencyList::union of every order-2 with every order-3 digraph with exactly 4 CPU(s).
+// @verif prop=C17 tier=quick fl=f2 role=union-list/t4 t=1800 mem=16
+#[cfg_attr(kani, kani::proof)]
+#[cfg_attr(kani, kani::unwind(8))]
+pub fn c17_union_list_n2_m3_t4() {
+    c11_ops::union::<AdjacencyList, 2, 3, 3>(EXACT + 4);
+}
+
+// AdjacencyList::union of every order-2 with every order-3 digraph with exactly 1 CPU(s).
+// @verif prop=C17 tier=thorough fl=f2 role=union-list/t1 t=1800 mem=16
+#[cfg_attr(kani, kani::proof)]
+#[cfg_attr(kani, kani::unwind(8))]
+pub fn c17_union_list_n2_m3_t1() {
+    c11_ops::union::<AdjacencyList, 2, 3, 3>(EXACT + 1);
+}
+
+// AdjacencyList::union of every order-2 with every order-3 digraph with exactly 3 CPU(s).
+// @verif prop=C17 tier=thorough fl=f2 role=union-list/t3 t=1800 mem=16
+#[cfg_attr(kani, kani::proof)]
+#[cfg_attr(kani, kani::unwind(8))]
+pub fn c17_union_list_n2_m3_t3() {
+    c11_ops::union::<AdjacencyList, 2, 3, 3>(EXACT + 3);
+}
+
+// AdjacencyList::union of every order-2 with every order-3 digraph with exactly 8 CPU(s).
+// @verif prop=C17 tier=thorough fl=f2 role=union-list/t8 t=1800 mem=16
 #[cfg_attr(kani, kani::proof)]
 #[cfg_attr(kani, kani::unwind(10))]
-pub fn c17_map_erdos_renyi_n3_p8() {
-    c15_random::erdos_renyi::<AdjacencyMap, 3>(8);
+pub fn c17_union_list_n2_m3_t8() {
+    c11_ops::union::<AdjacencyList, 2, 3, 3>(EXACT + 8);
 }
 
-// The seeded AdjacencyMap generators repeat exactly within one configuration.
-// @verif prop=C17 tier=thorough fl=f2 role=map-deterministic/p8 t=3600 mem=24
+// AdjacencyMap::union (merge-path partition) of two order-2 digraphs with exactly 2 CPU(s).
+// @verif prop=C17 tier=quick fl=f2 feat=map4 role=union-map/t2 t=2400 mem=20
+#[cfg_attr(kani, kani::proof)]
+#[cfg_attr(kani, kani::unwind(8))]
+pub fn c17_union_map_n2_m2_t2() {
+    c11_ops::union::<AdjacencyMap, 2, 2, 2>(EXACT + 2);
+}
+
+// AdjacencyMap::union (merge-path partition) of two order-2 digraphs with exactly 3 CPU(s).
+// @verif prop=C17 tier=quick fl=f2 feat=map4 role=union-map/t3 t=2400 mem=20
+#[cfg_attr(kani, kani::proof)]
+#[cfg_attr(kani, kani::unwind(8))]
+pub fn c17_union_map_n2_m2_t3() {
+    c11_ops::union::<AdjacencyMap, 2, 2, 2>(EXACT + 3);
+}
+
+// AdjacencyMap::union (merge-path partition) of two order-2 digraphs with exactly 1 CPU(s).
+// @verif prop=C17 tier=thorough fl=f2 feat=map4 role=union-map/t1 t=2400 mem=20
+#[cfg_attr(kani, kani::proof)]
+#[cfg_attr(kani, kani::unwind(8))]
+pub fn c17_union_map_n2_m2_t1() {
+    c11_ops::union::<AdjacencyMap, 2, 2, 2>(EXACT + 1);
+}
+
+// AdjacencyMap::union (merge-path partition) of two order-2 digraphs with exactly 4 CPU(s).
+// @verif prop=C17 tier=thorough fl=f2 feat=map4 role=union-map/t4 t=2400 mem=20
+#[cfg_attr(kani, kani::proof)]
+#[cfg_attr(kani, kani::unwind(8))]
+pub fn c17_union_map_n2_m2_t4() {
+    c11_ops::union::<AdjacencyMap, 2, 2, 2>(EXACT + 4);
+}
+
+// AdjacencyMap::union (merge-path partition) of two order-2 digraphs with exactly 8 CPU(s).
+// @verif prop=C17 tier=thorough fl=f2 feat=map4 role=union-map/t8 t=2400 mem=20
 #[cfg_attr(kani, kani::proof)]
 #[cfg_attr(kani, kani::unwind(10))]
-pub fn c17_map_deterministic_n3_p8() {
-    c15_random::deterministic::<AdjacencyMap, 3>(8);
+pub fn c17_union_map_n2_m2_t8() {
+    c11_ops::union::<AdjacencyMap, 2, 2, 2>(EXACT + 8);
 }
 
-// AdjacencyList::complement, order 4, p in 1..=16.
-// @verif prop=C17 tier=thorough fl=f2 role=complement/p16 t=3600 mem=24
+// AdjacencyList::complete(5) with exactly 1 CPU(s): chunk sizes [5].
+// @verif prop=C17 tier=quick fl=f2 role=complete/t1 t=1800 mem=16
 #[cfg_attr(kani, kani::proof)]
-#[cfg_attr(kani, kani::unwind(18))]
-pub fn c17_complement_n4_p16() {
-    c11_ops::complement::<AdjacencyList, 4>(16);
+#[cfg_attr(kani, kani::unwind(8))]
+pub fn c17_complete_n5_t1() {
+    c14_generators::complete_threads(5, EXACT + 1);
+}
+
+// AdjacencyList::complete(5) with exactly 2 CPU(s): chunk sizes [3].
+// @verif prop=C17 tier=quick fl=f2 role=complete/t2 t=1800 mem=16
+#[cfg_attr(kani, kani::proof)]
+#[cfg_attr(kani, kani::unwind(8))]
+pub fn c17_complete_n5_t2() {
+    c14_generators::complete_threads(5, EXACT + 2);
+}
+
+// AdjacencyList::complete(5) with exactly 4 CPU(s): chunk sizes [2].
+// @verif prop=C17 tier=quick fl=f2 role=complete/t4 t=1800 mem=16
+#[cfg_attr(kani, kani::proof)]
+#[cfg_attr(kani, kani::unwind(8))]
+pub fn c17_complete_n5_t4() {
+    c14_generators::complete_threads(5, EXACT + 4);
+}
+
+// AdjacencyList::complete(5) with exactly 5 CPU(s): chunk sizes [1].
+// @verif prop=C17 tier=quick fl=f2 role=complete/t5 t=1800 mem=16
+#[cfg_attr(kani, kani::proof)]
+#[cfg_attr(kani, kani::unwind(8))]
+pub fn c17_complete_n5_t5() {
+    c14_generators::complete_threads(5, EXACT + 5);
+}
+
+// AdjacencyList::complete(5) with exactly 8 CPU(s): chunk sizes [1].
+// @verif prop=C17 tier=quick fl=f2 role=complete/t8 t=1800 mem=16
+#[cfg_attr(kani, kani::proof)]
+#[cfg_attr(kani, kani::unwind(8))]
+pub fn c17_complete_n5_t8() {
+    c14_generators::complete_threads(5, EXACT + 8);
+}
+
+// AdjacencyList::complete(5) with exactly 3 CPU(s): chunk sizes [2].
+// @verif prop=C17 tier=thorough fl=f2 role=complete/t3 t=1800 mem=16
+#[cfg_attr(kani, kani::proof)]
+#[cfg_attr(kani, kani::unwind(8))]
+pub fn c17_complete_n5_t3() {
+    c14_generators::complete_threads(5, EXACT + 3);
+}
+
+// AdjacencyList::complete(5) with exactly 6 CPU(s): chunk sizes [1].
+// @verif prop=C17 tier=thorough fl=f2 role=complete/t6 t=1800 mem=16
+#[cfg_attr(kani, kani::proof)]
+#[cfg_attr(kani, kani::unwind(8))]
+pub fn c17_complete_n5_t6() {
+    c14_generators::complete_threads(5, EXACT + 6);
+}
+
+// AdjacencyList::complete(5) with exactly 16 CPU(s): chunk sizes [1].
+// @verif prop=C17 tier=thorough fl=f2 role=complete/t16 t=1800 mem=16
+#[cfg_attr(kani, kani::proof)]
+#[cfg_attr(kani, kani::unwind(8))]
+pub fn c17_complete_n5_t16() {
+    c14_generators::complete_threads(5, EXACT + 16);
+}
+
+// AdjacencyList::complete(5) with the CPU count symbolic in 1..=8.
+// @verif prop=C17 tier=thorough fl=f2 role=complete/p8 t=3600 mem=30
+#[cfg_attr(kani, kani::proof)]
+#[cfg_attr(kani, kani::unwind(10))]
+pub fn c17_complete_n5_p8() {
+    c14_generators::complete_threads(5, 8);
+}
+
+// AdjacencyList::complement on every digraph of order 2 with the CPU count symbolic in 1..=4 (chunk arithmetic for all counts in one query).
+// @verif prop=C17 tier=quick fl=f2 role=complement/symbolic-p t=1800 mem=16
+#[cfg_attr(kani, kani::proof)]
+#[cfg_attr(kani, kani::unwind(8))]
+pub fn c17_complement_n2_p4() {
+    c11_ops::complement::<AdjacencyList, 2>(4);
+}
+
+// AdjacencyMap::random_tournament(3, every seed) stays a tournament with exactly 2 CPU(s).
+// @verif prop=C17 tier=quick fl=f2 role=map-tournament/t2 t=2400 mem=20
+#[cfg_attr(kani, kani::proof)]
+#[cfg_attr(kani, kani::unwind(10))]
+pub fn c17_map_tournament_n3_t2() {
+    c15_random::tournament::<AdjacencyMap, 3>(EXACT + 2);
+}
+
+// AdjacencyMap::erdos_renyi(3, every p, every seed) stays a simple digraph with exactly 2 CPU(s).
+// @verif prop=C17 tier=thorough fl=f2 role=map-erdos-renyi/t2 t=3600 mem=24
+#[cfg_attr(kani, kani::proof)]
+#[cfg_attr(kani, kani::unwind(10))]
+pub fn c17_map_erdos_renyi_n3_t2() {
+    c15_random::erdos_renyi::<AdjacencyMap, 3>(EXACT + 2);
+}
+
+// AdjacencyMap::random_tournament(3, every seed) stays a tournament with exactly 4 CPU(s).
+// @verif prop=C17 tier=thorough fl=f2 role=map-tournament/t4 t=2400 mem=20
+#[cfg_attr(kani, kani::proof)]
+#[cfg_attr(kani, kani::unwind(10))]
+pub fn c17_map_tournament_n3_t4() {
+    c15_random::tournament::<AdjacencyMap, 3>(EXACT + 4);
+}
+
+// AdjacencyMap::erdos_renyi(3, every p, every seed) stays a simple digraph with exactly 4 CPU(s).
+// @verif prop=C17 tier=thorough fl=f2 role=map-erdos-renyi/t4 t=3600 mem=24
+#[cfg_attr(kani, kani::proof)]
+#[cfg_attr(kani, kani::unwind(10))]
+pub fn c17_map_erdos_renyi_n3_t4() {
+    c15_random::erdos_renyi::<AdjacencyMap, 3>(EXACT + 4);
+}
+
+// The seeded AdjacencyMap generators repeat exactly within one configuration (2 CPUs).
+// @verif prop=C17 tier=thorough fl=f2 role=map-deterministic/t2 t=3600 mem=24
+#[cfg_attr(kani, kani::proof)]
+#[cfg_attr(kani, kani::unwind(10))]
+pub fn c17_map_deterministic_n3_t2() {
+    c15_random::deterministic::<AdjacencyMap, 3>(EXACT + 2);
 }
